@@ -18,6 +18,17 @@ def check_normal_equations(model: Model, N: RuleResult):
     adjoint action (so that G.A is Hermitian positive semi-definite and cg applies)."""
     f = model.func(SOLVE_IMPL, "_setup_linear_problem")
     rets = [r for r in own_nodes(f.node) if isinstance(r, ast.Return) and isinstance(r.value, ast.Tuple) and len(r.value.elts) == 4]
+    helper = None          # (FuncInfo, {helper parameter -> caller's argument text}) when the fallback is built by a module-level helper
+    if len(rets) == 1:
+        for r in own_nodes(f.node):
+            if isinstance(r, ast.Return) and isinstance(r.value, ast.Call) and isinstance(r.value.func, ast.Name) and not r.value.keywords \
+                    and not any(isinstance(a, ast.Starred) for a in r.value.args):
+                g = model.module(SOLVE_IMPL).functions.get(r.value.func.id)
+                if g is not None and g.parent is None and len(r.value.args) == len(g.params()):
+                    grets = [x for x in own_nodes(g.node) if isinstance(x, ast.Return)]
+                    if len(grets) == 1 and isinstance(grets[0].value, ast.Tuple) and len(grets[0].value.elts) == 4:
+                        helper = (g, dict(zip(g.params(), [ast.unparse(a) for a in r.value.args])), r)
+                        rets = rets + [grets[0]]
     if len(rets) != 2:
         raise AnalysisError("C01-N: _setup_linear_problem no longer has the (posdef, fallback) pair of 4-tuple returns")
     # the direct return is the one under `if posdef:`
@@ -60,7 +71,40 @@ def check_normal_equations(model: Model, N: RuleResult):
     fe = fallback.value.elts
     opn = fe[0].id if isinstance(fe[0], ast.Name) else None
     rhs = fe[2]
-    if isinstance(rhs, ast.Name) and len(defs.get(rhs.id, [])) == 1:
+    if helper is not None and fallback is not helper[2]:
+        # read the fallback inside the helper, in the caller's vocabulary: the helper's parameters are the caller's arguments
+        g, amap, site = helper
+        import copy as _copy
+
+        class _Ren(ast.NodeTransformer):
+            def visit_Name(self, n_):
+                if n_.id in amap and isinstance(n_.ctx, ast.Load):
+                    return ast.copy_location(ast.parse(amap[n_.id], mode="eval").body, n_)
+                return n_
+        gdefs = function_defs(g.node)
+        if isinstance(rhs, ast.Name) and len(gdefs.get(rhs.id, [])) == 1:
+            rhs = gdefs[rhs.id][0]
+        rhs = _Ren().visit(_copy.deepcopy(rhs))
+        ginner = {fi.name: fi for fi in model.module(SOLVE_IMPL).functions.values() if fi.parent is g}
+        opf0 = ginner.get(opn)
+        if opf0 is not None:
+            clone = _copy.deepcopy(opf0.node)
+            own_params = {a.arg for a in clone.args.args}
+            amap = {k: v for k, v in amap.items() if k not in own_params}
+            clone = _Ren().visit(clone)
+            inner = dict(inner)
+
+            class _Shim:
+                def __init__(self, node, params):
+                    self.node, self._p = node, params
+
+                def params(self):
+                    return self._p
+            inner[opn] = _Shim(clone, opf0.params())
+        fe = list(fe)
+        fe[3] = _Ren().visit(_copy.deepcopy(fe[3]))
+        fallback = site
+    elif isinstance(rhs, ast.Name) and len(defs.get(rhs.id, [])) == 1:
         rhs = defs[rhs.id][0]
     opf = inner.get(opn)
     comp = None
@@ -69,6 +113,20 @@ def check_normal_equations(model: Model, N: RuleResult):
         if len(rr) == 1 and isinstance(rr[0].value, ast.Call) and isinstance(rr[0].value.func, ast.Name) and len(rr[0].value.args) == 1 \
                 and isinstance(rr[0].value.args[0], ast.Call) and isinstance(rr[0].value.args[0].func, ast.Name):
             comp = (rr[0].value.func.id, rr[0].value.args[0].func.id, ast.unparse(rr[0].value.args[0].args[0]) if rr[0].value.args[0].args else "")
+    if comp is None and opn is not None:
+        # the operator is built some other way (a composition helper, a lambda): apply it abstractly to a token and read the word off
+        word = _operator_word(model, f, opn, defs, inner, a_name, at_name)
+        if word is None:
+            N.undecided(f, fallback, "cannot interpret how the fallback operator `%s` is built" % opn)
+            return
+        if word[0] == "app" and isinstance(word[2], tuple) and word[2][0] == "app" and word[2][2] == "X":
+            class _P:
+                @staticmethod
+                def params():
+                    return ["x"]
+            comp, opf = (word[1], word[2][1], "x"), _P
+        else:
+            comp, opf = ("<%s>" % (word,), "", ""), None
     what = "fallback: operator %s, right-hand side %s" % ("%s(%s(x))" % comp[:2] if comp else "?", ast.unparse(rhs))
     ok = (comp is not None and comp[0] == at_name and comp[1] == a_name and comp[2] == opf.params()[0] and isinstance(rhs, ast.Call)
           and isinstance(rhs.func, ast.Name) and rhs.func.id == at_name and len(rhs.args) == 1 and ast.unparse(rhs.args[0]) == b_name)
@@ -81,6 +139,30 @@ def check_normal_equations(model: Model, N: RuleResult):
         N.ok(f.fq, "the fallback operator is returned as its own adjoint (Hermitian) and the column-swap flag is passed on")
     else:
         N.bad(f, fallback, "the fallback must return the (Hermitian) composed operator in both operator slots and the same column-swap flag")
+
+
+def _operator_word(model: Model, f, opn: str, defs, inner, a_name: str, at_name: str):
+    """apply the fallback operator to a token X with the two closures as uninterpreted maps: ("app", name, arg) terms, or None"""
+    from ..domains.kinds import KindInterp, Closure
+    from ..domains.dictsem import Unsupported, Raised, _Return
+    mod = model.module(SOLVE_IMPL)
+    env = {a_name: (lambda v, n=a_name: ("app", n, v)), at_name: (lambda v, n=at_name: ("app", n, v)), "X": "X"}
+    it = KindInterp(env)
+    it.functions = {n_: fi.node for n_, fi in mod.functions.items() if fi.parent is None and fi.cls is None}
+    try:
+        ds = [d for d in defs.get(opn, []) if d is not None]
+        if opn in inner:
+            nd = inner[opn].node
+            clo = Closure([a.arg for a in nd.args.args], nd.body, env, False)
+        elif len(ds) == 1:
+            clo = it.ev(ds[0])
+        else:
+            return None
+        if not isinstance(clo, Closure):
+            return None
+        return it.apply(clo, ["X"])
+    except (Unsupported, Raised, _Return, Exception):
+        return None
 
 
 def _batch_configs(maxrank: int):
